@@ -61,6 +61,15 @@ Theorem C18_try_fallback_shared_refuted :
 Proof. reflexivity. Qed.
 Print Assumptions C18_try_fallback_shared_refuted.
 
+(* a stack of any length over {try_*, try_back, kwargs_support, cache, loops, pd2np} returns what f returns on
+   every call whose keywords are all declared; a raising f raises the same through a stack without try_* *)
+Theorem C18_stack_transparent V R (none : R) (inj : V -> R) (s : sig V) chain (f : call V -> lres R) c :
+  (forall kv, In kv (snd c) -> In (fst kv) (pos s)) ->
+  (forall r, f c = LOk r -> apply_chain none inj s chain f c = LOk r) /\
+  (forall e, f c = LErr e -> ~ In TTry chain -> ~ In TBack chain -> apply_chain none inj s chain f c = LErr e).
+Proof. exact (stack_transparent none inj s chain f c). Qed.
+Print Assumptions C18_stack_transparent.
+
 (* kwargs_support(f) for f without **kwargs: f is called without exactly the keywords it does not declare
    (and with the call unchanged when all are declared) *)
 Theorem C18_kwargs_support_ignores_exactly_undeclared V R (s : sig V) (f : call V -> lres R) args kw :
